@@ -93,6 +93,14 @@ class Expr:
                 raise TranslateError('keyword call')
             if fname in LOGS and base in (None, 'math', 'np') and len(e.args) == 1:
                 return '(Transc.log10 %s)' % self.tr(e.args[0])
+            if fname == '_log10' and base is None and len(e.args) == 1:
+                # conversion.py's float-promotion helper `np.log10(np.asarray(value) + 0.0)`: over the
+                # reals it is log10 (its exact shape is checked by the C20 plugin, which owns it)
+                from harness.gen import c20 as _c20
+                import os as _os
+                _c20.check_log10_helper(_c20.T.parse_file(_os.path.join(
+                    _os.environ.get('PYPHYSIM_REPO', '/repo'), 'pyphysim/util/conversion.py')))
+                return '(Transc.log10 %s)' % self.tr(e.args[0])
             if fname == 'pow' and base is None and len(e.args) == 2 and self.is_ten(e.args[0]):
                 return '(Transc.pow10 %s)' % self.tr(e.args[1])
             if fname == 'minimum' and base == 'np' and len(e.args) == 2:
